@@ -9,6 +9,7 @@ alignment, line wrapping, and section formatting for Args, Returns, and Raises.
 from typing import List, Tuple, Union
 
 from .line_writer import LineWriter
+from .text_escape import escape_docstring_text
 
 
 class DocumentationBlock:
@@ -218,5 +219,6 @@ class DocumentationWriter:
             lines.append("")
             lines.append("Raises:")
             lines.extend(self.section_renderer.render_raises(doc.raises, indent + 4))
-        lines.append('"""')
-        return "\n".join(lines)
+        # Everything between the quotes is text (much of it from the spec): keep it inert
+        body = escape_docstring_text("\n".join(lines[1:]))
+        return "\n".join([lines[0], body, '"""']) if len(lines) > 1 else "\n".join([lines[0], '"""'])
